@@ -152,7 +152,12 @@ impl Write for SharedSink {
             }
             Resp::Fail(kind) => {
                 s.writes.push((buf.len(), format!("fail:{:?}", kind), 0));
-                Err(io::Error::new(kind, "injected failure"))
+                // sinks report errors in every form std offers: with a payload, as a bare kind, as an OS error number
+                match kind {
+                    io::ErrorKind::BrokenPipe | io::ErrorKind::TimedOut => Err(io::Error::from(kind)),
+                    io::ErrorKind::WouldBlock => Err(io::Error::from_raw_os_error(11)),
+                    _ => Err(io::Error::new(kind, "injected failure")),
+                }
             }
         }
     }
